@@ -66,10 +66,20 @@ class MBase:
 
 
 class MField(MBase):
+    REAL = "EncodedField"
+
     def __init__(self, cls, name, typ):
         self.cls, self.name, self.typ = cls, name, typ
         self.label = "%s->%s %s" % (cls.name, name, typ)
         self.class_name = cls.name
+        self.access_flags = 0x1
+        self.CM = cls.dex.CM
+
+    def m_get_access_flags(self):
+        return self.access_flags
+
+    def m_get_class_idx(self):
+        return self.cls.dex.classes.index(self.cls)
 
     def m_get_class_name(self):
         return self.cls.name
@@ -85,6 +95,22 @@ class MField(MBase):
 
 
 class MIns(MBase):
+    REAL = None  # the Instruction class depends on the opcode; only the documented getters are modelled
+
+    def m_get_string(self):
+        """Instruction21c/31c.get_string(): resolved through ClassManager.get_string, i.e. honouring rename hooks"""
+        return self.cm.m_get_string(self.idx)
+
+    def m_get_raw_string(self):
+        return self.cm.m_get_raw_string(self.idx)
+
+    def m_get_ref_off(self):
+        return Sym("ref_off%d" % self.pos)
+
+    def m_get_kind(self):
+        k = dalvik.OPCODES.get(self.op, (None, None, None))[2]
+        return {"string": 1, "field": 2, "type": 3, "method": 0}.get(k, -1)
+
     def __init__(self, method, pos, op, idx):
         self.method, self.pos, self.op, self.idx = method, pos, op, idx
         # byte offset = sum of the (symbolic) lengths of the preceding instructions: the same value whether the analysed
@@ -113,10 +139,27 @@ class MIns(MBase):
 
 
 class MMethod(MBase):
-    def __init__(self, cls, name, proto):
+    REAL = "EncodedMethod"
+
+    def __init__(self, cls, name, proto, has_code=True, access_flags=0x1):
         self.cls, self.name, self.proto = cls, name, list(proto)
         self.ins = []
         self.label = "%s->%s%s" % (cls.name, name, "".join(proto))
+        self.has_code = has_code
+        self.access_flags = access_flags
+        self.CM = cls.dex.CM
+
+    def m_get_class_idx(self):
+        return self.cls.dex.classes.index(self.cls)
+
+    def m_is_cached_instructions(self):
+        return True
+
+    def m_get_information(self):
+        return {}
+
+    def m_is_external(self):
+        return False
 
     def m_get_class_name(self):
         return self.cls.name
@@ -128,7 +171,7 @@ class MMethod(MBase):
         return "".join(self.proto)
 
     def m_get_code(self):
-        return MCode(self)
+        return MCode(self) if self.has_code else None
 
     def m_get_code_off(self):
         return 0
@@ -137,7 +180,7 @@ class MMethod(MBase):
         return "public"
 
     def m_get_access_flags(self):
-        return 1
+        return self.access_flags
 
     def m_get_instructions_idx(self):
         return [(i.off, i) for i in self.ins]
@@ -189,10 +232,24 @@ class MCode(MBase):
 
 
 class MClass(MBase):
-    def __init__(self, dex, name, superclass="Ljava/lang/Object;"):
+    REAL = "ClassDefItem"
+
+    def __init__(self, dex, name, superclass="Ljava/lang/Object;", access_flags=0x1, interfaces=()):
         self.dex, self.name, self.superclass = dex, name, superclass
         self.methods, self.fields = [], []
         self.label = name
+        self.access_flags = access_flags
+        self.interfaces = list(interfaces)
+        self.CM = dex.CM
+
+    def m_get_access_flags(self):
+        return self.access_flags
+
+    def m_get_class_idx(self):
+        return self.dex.classes.index(self)
+
+    def m_get_source(self):
+        return ""
 
     def m_get_name(self):
         return self.name
@@ -210,16 +267,43 @@ class MClass(MBase):
         return self.superclass
 
     def m_get_interfaces(self):
-        return []
+        return list(self.interfaces)
 
     def m_get_access_flags_string(self):
-        return "public"
+        return "public interface abstract" if self.access_flags & 0x200 else "public"
+
+
+class MHeader(MBase):
+    REAL = "HeaderItem"
+
+    def __init__(self, dex):
+        self.label = "header(%s)" % dex.label
+        self.magic = b"dex\n035\x00"
+        self.checksum = 0
+        # the SHA-1 field is never verified by androguard or the runtime: tools leave it zeroed, so equal values in
+        # different DEX files are legal input
+        self.signature = b"\x00" * 20
+        self.file_size = 0x70
+        self.header_size = 0x70
+        self.endian_tag = 0x12345678
+        self.link_size = self.link_off = self.map_off = 0
+        self.data_size = self.data_off = 0
+        self.dex = dex
+
+    def m_get_signature(self):
+        return self.signature
+
+    def m_get_checksum(self):
+        return self.checksum
 
 
 class MCM(MBase):
+    REAL = "ClassManager"
+
     def __init__(self, dex):
         self.vm = dex
         self.label = "cm(%s)" % dex.label
+        self.hook_strings = {}   # string_id -> replacement text (filled by the set_name() API of methods / fields / classes)
 
     def m_get_vm(self):
         return self.vm
@@ -237,11 +321,15 @@ class MCM(MBase):
         return self.vm.m_get_cm_string(idx)
 
     def m_get_string(self, idx):
+        if idx in self.hook_strings:
+            return self.hook_strings[idx]
         return self.vm.m_get_cm_string(idx)
 
 
 class MDex(MBase):
     """pools are aligned: every index used by an instruction is valid in every pool"""
+
+    REAL = "DEX"
 
     def __init__(self, label):
         self.label = label
@@ -249,6 +337,18 @@ class MDex(MBase):
         self.pool = {"method": [], "type": [], "string": [], "field": []}
         self.CM = MCM(self)
         self.version = 35
+        self.header = MHeader(self)
+        self.api_version = 28
+        self.config = None
+
+    def m_get_header_item(self):
+        return self.header
+
+    def m_get_api_version(self):
+        return self.api_version
+
+    def m_get_all_fields(self):
+        return [f for c in self.classes for f in c.fields]
 
     # ---- reference decoding -------------------------------------------------------
     def _get(self, pool, idx):
@@ -276,7 +376,7 @@ class MDex(MBase):
         return list(self.classes)
 
     def m_get_strings(self):
-        return list(dict.fromkeys(self.pool["string"]))
+        return list(self.pool["string"])   # the string table in index order (entries are unique)
 
     def m_get_hidden_api(self):
         return None
@@ -293,38 +393,8 @@ class MDex(MBase):
     def m_get_len_classes(self):
         return len(self.classes)
 
-    # ---- definition lookups (per DEX, as in androguard.core.dex.DEX) -----------------------------------
-    def m_get_class(self, name):
-        for c in self.classes:
-            if c.name == name:
-                return c
-        return None
-
-    def m_get_encoded_field_descriptor(self, class_name, field_name, descriptor):
-        for c in self.classes:
-            for f in c.fields:
-                if (f.cls.name, f.name, f.typ) == (class_name, field_name, descriptor):
-                    return f
-        return None
-
-    def m_get_encoded_method_descriptor(self, class_name, method_name, descriptor):
-        for c in self.classes:
-            for m in c.methods:
-                if (m.cls.name, m.name, "".join(m.proto)) == (class_name, method_name, descriptor):
-                    return m
-        return None
-
-    def m_get_encoded_methods(self):
-        return [m for c in self.classes for m in c.methods]
-
-    def m_get_encoded_fields(self):
-        return [f for c in self.classes for f in c.fields]
-
-    def m_get_encoded_fields_class(self, class_name):
-        return [f for c in self.classes for f in c.fields if c.name == class_name]
-
-    def m_get_encoded_methods_class(self, class_name):
-        return [m for c in self.classes for m in c.methods if c.name == class_name]
+    # definition lookups (get_class, get_encoded_field_descriptor, get_encoded_method_descriptor, ...) are NOT modelled:
+    # the code of androguard.core.dex.DEX is executed on this object (see Runner.method_hook)
 
 
 MODEL_TYPES = (MBase,)
@@ -340,20 +410,25 @@ def build(classes, layout):
         dexes.append(d)
         for cn in names:
             spec = classes[cn]
-            c = MClass(d, cn, spec.get("super", "Ljava/lang/Object;"))
+            c = MClass(d, cn, spec.get("super", "Ljava/lang/Object;"), spec.get("flags", 0x1), spec.get("interfaces", ()))
             d.classes.append(c)
             for fn, ft in spec.get("fields", []):
                 c.fields.append(MField(c, fn, ft))
             for mn, proto, body in spec.get("methods", []):
-                m = MMethod(c, mn, proto)
+                m = MMethod(c, mn, proto, has_code=body is not None)
                 c.methods.append(m)
-                for pos, (op, ref) in enumerate(body):
+                for pos, (op, ref) in enumerate(body or []):
                     idx = _intern(d, ref)
                     m.ins.append(MIns(m, pos, op, idx))
+            for raw, new in spec.get("string_hooks", []):
+                # the effect of set_name() on a method / field / class whose name has this string id
+                d.CM.hook_strings[_intern(d, ("string", raw))] = new
     return dexes
 
 
-FILL = {"method": ("Lfill/F;", "fill", ["()", "V"]), "type": "Lfill/F;", "string": "fill", "field": ("Lfill/F;", "I", "fill")}
+def _fill(pool, i):
+    """filler entry i of a pool (unique per index, as the entries of a real DEX table are)"""
+    return {"method": ("Lfill/F%d;" % i, "fill", ["()", "V"]), "type": "Lfill/F%d;" % i, "string": "fill%d" % i, "field": ("Lfill/F%d;" % i, "I", "fill")}[pool]
 
 
 def _intern(d, ref):
@@ -371,11 +446,29 @@ def _intern(d, ref):
     elif ref[0] == "field":
         entry["field"] = (ref[1], ref[2], ref[3])
     for i in range(len(d.pool["method"])):
-        if all(d.pool[p][i] == v for p, v in entry.items()) and all(d.pool[p][i] == FILL[p] for p in d.pool if p not in entry):
+        if all(d.pool[p][i] == v for p, v in entry.items()) and all(d.pool[p][i] == _fill(p, i) for p in d.pool if p not in entry):
             return i
+    n = len(d.pool["method"])
     for p in d.pool:
-        d.pool[p].append(entry.get(p, FILL[p]))
-    return len(d.pool["method"]) - 1
+        v = entry.get(p, _fill(p, n))
+        if p in ("string", "type") and v in d.pool[p]:
+            # the value already has an index in this table: a second index for it would not be a legal table
+            if p not in entry:
+                v = _fill(p, n)
+            else:
+                return _intern_split(d, entry)
+        d.pool[p].append(v)
+    return n
+
+
+def _intern_split(d, entry):
+    """the entry names a string/type that already has an index: reuse that index if the other pools agree, else error"""
+    for p in ("string", "type"):
+        if p in entry and entry[p] in d.pool[p]:
+            i = d.pool[p].index(entry[p])
+            if all(d.pool[q][i] == v for q, v in entry.items()):
+                return i
+    raise AnalysisError("model: reference %r cannot be given an index of its own" % (entry,))
 
 
 # ---------------------------------------------------------------------------------------------------------
@@ -395,6 +488,14 @@ class _NT(tuple):
 
     def field(self, name):
         return self[self._nt_fields.index(name)]
+
+
+class _OpCallable:
+    """operator.methodcaller / attrgetter / itemgetter"""
+
+    def __init__(self, kind, args, kwargs=None):
+        self.kind, self.args, self.kwargs = kind, list(args), dict(kwargs or {})
+        self.label = "operator.%s%r" % (kind, tuple(args))
 
 
 class _Graph:
@@ -480,21 +581,53 @@ class XInterp(Interp):
     def unknown(self, v, node, func):
         raise AnalysisError("%s: condition %s does not evaluate on the model (%s)" % (func.loc(node), ast.unparse(node)[:80], show(v)[:80]))
 
+    def truth(self, v, node, func):
+        # python semantics: an object is falsy if its class defines __bool__ / __len__ and that says so
+        if isinstance(v, Obj) and v.cls is not None:
+            fb = v.cls.lookup("__bool__")
+            if fb is not None:
+                return self.truth(self.call_function(fb, [], recv=v), node, func)
+            fl = v.cls.lookup("__len__")
+            if fl is not None:
+                n = self.call_function(fl, [], recv=v)
+                if isinstance(n, Bits) and n.is_const():
+                    n = n.value()
+                if not isinstance(n, int):
+                    raise AnalysisError("%s: __len__ of %s does not evaluate on the model" % (func.loc(node), v.cls.name))
+                return n != 0
+            return True
+        if isinstance(v, MBase):
+            return True
+        if isinstance(v, (set, frozenset, dict, list, tuple, str, bytes)):
+            return len(v) > 0
+        return super().truth(v, node, func)
+
     # nothing may be lost silently: a loop over / a store into something the model does not represent is an error
     def exec_for(self, s, env, func):
+        from .absint import _Break, _Continue
         it = self.eval(s.iter, env, func)
-        if self.concrete_iter(it) is None:
+        seq = self.concrete_iter(it)
+        if seq is None:
             raise AnalysisError("%s: loop over %s, which is not a concrete sequence on the model" % (func.loc(s), show(it)[:80]))
-        saved = self.eval
-        try:
-            self.eval = lambda e, env2, f2, _it=it, _n=s.iter: _it if e is _n else saved(e, env2, f2)
-            return super().exec_for(s, env, func)
-        finally:
-            self.eval = saved
+        broke = False
+        for item in seq:
+            super().assign(s.target, item, env, func) if isinstance(s.target, (ast.Name, ast.Tuple, ast.List)) else self.assign(s.target, item, env, func)
+            try:
+                self.exec_block(s.body, env, func)
+            except _Break:
+                broke = True
+                break
+            except _Continue:
+                continue
+        if not broke:
+            self.exec_block(s.orelse, env, func)
 
     def assign(self, t, v, env, func):
         if isinstance(t, ast.Attribute):
             o = self.eval(t.value, env, func)
+            if isinstance(o, MBase):
+                setattr(o, self.mangle(t.attr, func), v)   # e.g. a cache the real class keeps on the object
+                return
             if not isinstance(o, Obj):
                 raise AnalysisError("%s: attribute store on %s" % (func.loc(t), show(o)[:60]))
             o.attrs[self.mangle(t.attr, func)] = v
@@ -547,15 +680,48 @@ class Runner:
         self.A = self.ana.cls("Analysis")
         self.inline = {"*module*"} | {f.qualname for f in self.ana.functions.values()}
         self.it = None
+        self.touched = set()   # functions of the real DEX classes that were executed on model objects
 
     # ---- hooks ---------------------------------------------------------------------------------------
     def attr_hook(self, it, base, attr, func):
         if isinstance(base, MODEL_TYPES):
             if hasattr(base, "m_" + attr):
                 raise AnalysisError("model: bound method %s.%s taken as a value" % (type(base).__name__, attr))
-            if attr.startswith("m_") or not hasattr(base, attr):
+            if attr.startswith("m_"):
                 raise AnalysisError("model: %s has no attribute %s" % (type(base).__name__, attr))
-            return getattr(base, attr)
+            if hasattr(base, attr):
+                return getattr(base, attr)
+            # an attribute the real class initialises / resets with a constant (caches: None / {} / []), in __init__ or a
+            # reset method it calls: the unique constant assigned to it anywhere in the class is its initial value
+            rc = self.real_class(base)
+            if rc is not None:
+                vals = []
+                for c in rc.mro():
+                    for f in c.methods.values():
+                        for n in ast.walk(f.node):
+                            if isinstance(n, ast.Assign) and len(n.targets) == 1 and isinstance(n.targets[0], ast.Attribute) \
+                                    and isinstance(n.targets[0].value, ast.Name) and n.targets[0].value.id == "self":
+                                nm = n.targets[0].attr
+                                if nm.startswith("__") and not nm.endswith("__"):
+                                    nm = "_%s%s" % (c.name.lstrip("_"), nm)
+                                if nm != attr:
+                                    continue
+                                if isinstance(n.value, ast.Constant):
+                                    vals.append(("c", repr(n.value.value), n.value.value))
+                                elif isinstance(n.value, ast.Dict) and not n.value.keys:
+                                    vals.append(("d", "{}", None))
+                                elif isinstance(n.value, ast.List) and not n.value.elts:
+                                    vals.append(("l", "[]", None))
+                consts = {v[:2] for v in vals if v[0] == "c"}
+                if len(consts) == 1:
+                    v = [x for x in vals if x[0] == "c"][0][2]
+                    setattr(base, attr, v)
+                    return v
+                if not consts and vals and len({v[:2] for v in vals}) == 1:
+                    v = {} if vals[0][0] == "d" else []
+                    setattr(base, attr, v)
+                    return v
+            raise AnalysisError("model: %s has no attribute %s" % (type(base).__name__, attr))
         if isinstance(base, _NT):
             if attr in base._nt_fields:
                 return base.field(attr)
@@ -591,15 +757,30 @@ class Runner:
                 raise Raised("AttributeError", None, "'%s' object has no attribute '%s'" % (base.cls.name, attr))
         return NotImplemented
 
+    def real_class(self, recv):
+        rn = getattr(recv, "REAL", None)
+        if not rn:
+            return None
+        for m in (self.repo.mod(DEX), self.ana):
+            if rn in m.classes:
+                return m.classes[rn]
+        return None
+
     def method_hook(self, it, recv, name, args, kwargs, e, func):
         if isinstance(recv, MODEL_TYPES):
             m = getattr(recv, "m_" + name, None)
-            if m is None:
+            if m is not None:
+                try:
+                    return m(*args, **(kwargs or {}))
+                except TypeError as ex:
+                    raise AnalysisError("model: %s.%s%r: %s" % (type(recv).__name__, name, tuple(args), ex))
+            # not a primitive of the model: execute the method of the real class on the model object
+            rc = self.real_class(recv)
+            f = rc.lookup(name) if rc is not None else None
+            if f is None:
                 raise AnalysisError("model: %s.%s() is not modelled (called at %s)" % (type(recv).__name__, name, func.loc(e)))
-            try:
-                return m(*args, **(kwargs or {}))
-            except TypeError as ex:
-                raise AnalysisError("model: %s.%s%r: %s" % (type(recv).__name__, name, tuple(args), ex))
+            self.touched.add((f.module.relpath, f.qualname))
+            return it.call_function(f, args, kwargs, recv=recv)
         if isinstance(recv, Obj) and recv.cls is not None and recv.cls.name == "MethodAnalysis" and name == "_create_basic_block":
             return None  # basic blocks of the model methods are not built (irrelevant to the cross-references; C10/C11/C40 decide them)
         if isinstance(recv, _Graph):
@@ -608,6 +789,11 @@ class Runner:
             mod = recv.args[0]
             if mod == "time":
                 return 0
+            if mod == "operator" and name in ("methodcaller", "attrgetter", "itemgetter") and args:
+                return _OpCallable(name, args, kwargs)
+            if mod == "binascii" and name in ("hexlify", "unhexlify", "b2a_hex", "a2b_hex") and len(args) == 1 and isinstance(args[0], (bytes, str)):
+                import binascii as _b
+                return getattr(_b, name)(args[0])
             if mod in ("nx", "networkx") and name in ("DiGraph", "MultiDiGraph"):
                 return _Graph()
             if mod == "collections" and name == "defaultdict":
@@ -626,9 +812,11 @@ class Runner:
         if isinstance(recv, Sym) and ((recv.op == "modattr" and recv.args[:2] == ("itertools", "chain")) or
                                       (recv.op == "attr" and len(recv.args) == 2 and recv.args[1] == "chain" and "itertools" in show(recv.args[0]))) and name == "from_iterable" and len(args) == 1:
             return [x for a in self.seq(args[0]) for x in self.seq(a)]
+        if isinstance(recv, Sym) and recv.op == "name" and recv.args and recv.args[0] == "chain" and name == "from_iterable" and len(args) == 1:
+            return [x for a in self.seq(args[0]) for x in self.seq(a)]   # from itertools import chain
         if isinstance(recv, Sym) and "logger" in show(recv)[:40]:
             return None
-        if isinstance(recv, (set, frozenset, dict, list, tuple, str)):
+        if isinstance(recv, (set, frozenset, dict, list, tuple, str, bytes)):
             r = self.container_method(recv, name, args, kwargs, e, func)
             if r is not NotImplemented:
                 return r[0]
@@ -743,8 +931,8 @@ class Runner:
                 raise Raised("ValueError", e)
             if name == "copy":
                 return (list(recv),)
-        if isinstance(recv, (str,)):
-            if all(isinstance(a, (str, int, tuple)) for a in args) and not kwargs and hasattr(recv, name):
+        if isinstance(recv, (str, bytes)):
+            if all(isinstance(a, (str, int, tuple, bytes)) for a in args) and not kwargs and hasattr(recv, name):
                 try:
                     return (getattr(recv, name)(*args),)
                 except Exception as ex:
@@ -791,6 +979,13 @@ class Runner:
             return args[0] in g.nodes
         raise AnalysisError("model: DiGraph.%s is not modelled" % name)
 
+    def apply(self, it, f, args, e, func):
+        """call a callable value (function reference, lambda, bound method, operator.* object, model factory)"""
+        r = self.call_hook(it, None, f, list(args), {}, e, func)
+        if r is NotImplemented:
+            r = it.call_value(f, None, list(args), {}, e, {}, func)
+        return r
+
     def call_hook(self, it, name, callee, args, kwargs, e, func):
         if name == "isinstance" and len(args) == 2:
             v, t = args
@@ -805,6 +1000,8 @@ class Runner:
                 py = {"str": str, "int": int, "list": list, "tuple": tuple, "dict": dict, "set": set}
                 if tn <= set(py) and not isinstance(v, (Sym, Lin, Bits)):
                     return isinstance(v, tuple(py[x] for x in tn)) and not (isinstance(v, bool) and "int" in tn)
+        if name == "chain" and isinstance(callee, Sym) and callee.op == "name":
+            return [x for a in args for x in self.seq(a)]
         if name in ("dict", "list", "set", "tuple", "frozenset"):
             if not args and not kwargs:
                 return {"dict": dict, "list": list, "set": set, "tuple": tuple, "frozenset": frozenset}[name]()
@@ -817,11 +1014,11 @@ class Runner:
                 return {"list": list, "set": set, "tuple": tuple, "frozenset": frozenset}[name](xs)
         if name == "map" and len(args) >= 2:
             seqs = [self.seq(a) for a in args[1:]]
-            return [it.call_value(args[0], None, list(xs), {}, e, {}, func) for xs in zip(*seqs)]
+            return [self.apply(it, args[0], list(xs), e, func) for xs in zip(*seqs)]
         if name == "filter" and len(args) == 2:
             out = []
             for x in self.seq(args[1]):
-                r = x if args[0] is None else it.call_value(args[0], None, [x], {}, e, {}, func)
+                r = x if args[0] is None else self.apply(it, args[0], [x], e, func)
                 if it.truth(r, e, func):
                     out.append(x)
             return out
@@ -829,7 +1026,7 @@ class Runner:
             xs = self.seq(args[0])
             keyf = (kwargs or {}).get("key")
             try:
-                ks = [it.call_value(keyf, None, [x], {}, e, {}, func) if keyf is not None else x for x in xs]
+                ks = [self.apply(it, keyf, [x], e, func) if keyf is not None else x for x in xs]
                 if not all(isinstance(k, (int, str, tuple)) for k in ks):
                     raise TypeError
                 order = sorted(range(len(xs)), key=lambda i: ks[i], reverse=bool((kwargs or {}).get("reverse", False)))
@@ -862,6 +1059,40 @@ class Runner:
                 if len(args) > 2:
                     return args[2]
                 raise Raised("AttributeError", e, nm)
+        if name in ("methodcaller", "attrgetter", "itemgetter") and args and (name != "methodcaller" or isinstance(args[0], str)):
+            return _OpCallable(name, args, kwargs)
+        if isinstance(callee, _OpCallable) and len(args) == 1:
+            tgt = args[0]
+            if callee.kind == "methodcaller":
+                r = self.method_hook(it, tgt, callee.args[0], callee.args[1:], callee.kwargs, e, func)
+                if r is NotImplemented:
+                    r = it.call_method(tgt, callee.args[0], callee.args[1:], callee.kwargs, e, {}, func)
+                return r
+            if callee.kind == "itemgetter":
+                vals = []
+                for k in callee.args:
+                    r = self.subscript_hook(it, tgt, k, e, func)
+                    if r is NotImplemented:
+                        if isinstance(tgt, (list, tuple, str)) and isinstance(k, int):
+                            r = tgt[k]
+                        else:
+                            raise AnalysisError("model: itemgetter(%s) on %s" % (show(k), show(tgt)[:40]))
+                    vals.append(r)
+                return vals[0] if len(vals) == 1 else tuple(vals)
+            if callee.kind == "attrgetter":
+                vals = []
+                for a in callee.args:
+                    cur = tgt
+                    for part in a.split("."):
+                        r = self.attr_hook(it, cur, part, func)
+                        if r is NotImplemented:
+                            if isinstance(cur, Obj) and part in cur.attrs:
+                                r = cur.attrs[part]
+                            else:
+                                raise AnalysisError("model: attrgetter(%s) on %s" % (a, show(cur)[:40]))
+                        cur = r
+                    vals.append(cur)
+                return vals[0] if len(vals) == 1 else tuple(vals)
         if isinstance(callee, _NTFactory):
             vals = list(args)
             for f in callee.fields[len(vals):]:
@@ -1252,10 +1483,13 @@ def ops_str(ops):
     return ", ".join(op_name(k) for k in xs)
 
 
-def base_classes(body_a, body_b=()):
+def base_classes(body_a, body_b=(), flags_a=0x1, hooks=()):
     return {
-        "LA;": dict(super="LS;", methods=[("m", PROTO_V, [(op, ref) for op, ref, _ in body_a]), ("m2", PROTO_V, [])], fields=[("y", "I")]),
-        "LB;": dict(methods=[("foo", ["(I)", "V"], [(op, ref) for op, ref, _ in body_b])], fields=[("x", "I")]),
+        "LA;": dict(super="LS;", flags=flags_a, methods=[("m", PROTO_V, [(op, ref) for op, ref, _ in body_a]), ("m2", PROTO_V, []), ("abstract_m", PROTO_V, None)],
+                    fields=[("y", "I"), ("y", "J")], string_hooks=list(hooks)),
+        "LB;": dict(methods=[("foo", ["(I)", "V"], [(op, ref) for op, ref, _ in body_b]), ("renamed", PROTO_V, [])], fields=[("x", "I"), ("x", "J")]),
+        # a class that declares fields but no methods (constant holder)
+        "LD;": dict(methods=[], fields=[("v", "I")]),
     }
 
 
@@ -1270,25 +1504,39 @@ def scenario_bodies():
               (k, ("method", "LB;", "foo", ["(J)", "V"]), "overload the internal class does not define")]
     S["F2 invoke variants"] = b
     S["F2a invoke on array classes"] = [x for k in INVOKES for x in ((k, ("method", "[LB;", "clone", ["()", "Ljava/lang/Object;"]), "object-array receiver"),
-                                                                       (k, ("method", "[I", "clone", ["()", "Ljava/lang/Object;"]), "primitive-array receiver"))]
+                                                                       (k, ("method", "[I", "clone", ["()", "Ljava/lang/Object;"]), "primitive-array receiver"),
+                                                                       (k, ("method", "[[LB;", "clone", ["()", "Ljava/lang/Object;"]), "two-dimensional object-array receiver"),
+                                                                       (k, ("method", "[[I", "clone", ["()", "Ljava/lang/Object;"]), "two-dimensional primitive-array receiver"))]
     X, Y, Z = ("method", "LB;", "foo", ["(I)", "V"]), ("method", "[I", "clone", ["()", "Ljava/lang/Object;"]), ("method", EXT, "bar", PROTO_V)
     S["F2s invoke sequence"] = [(0x6E, X, "1st: internal"), (0x6E, Y, "2nd: primitive-array receiver"), (0x6E, Y, "3rd: same reference again"),
                                 (0x6E, X, "4th: internal again"), (0x71, Z, "5th: external"), (0x71, Z, "6th: same external again"), (0x6E, X, "7th: internal"),
                                 (0x1C, ("type", EXT), "8th: const-class in between"), (0x6E, X, "9th: internal after the const-class"),
                                 (0x22, ("type", "LB;"), "10th: new-instance in between"), (0x71, Z, "11th: external after the new-instance")]
     S["F3 field variants"] = [x for k in FIELD_OPS for x in ((k, ("field", "LA;", "I", "y"), "field of the own class"), (k, ("field", "LB;", "I", "x"), "field of another class"),
-                                                              (k, ("field", EXT, "I", "z"), "field that is not defined"))]
+                                                              (k, ("field", EXT, "I", "z"), "field that is not defined"),
+                                                              (k, ("field", "LA;", "J", "y"), "same-named field of another type in the own class"),
+                                                              (k, ("field", "LB;", "J", "x"), "same-named field of another type in another class"),
+                                                              (k, ("field", "LD;", "I", "v"), "field of a class without methods"))]
     S["F4 class usage"] = [x for k in sorted(_CU) for x in ((k, ("type", "LB;"), "internal class"), (k, ("type", EXT), "external class"),
                                                             (k, ("type", "LA;"), "the class itself"), (k, ("type", "LB;"), "internal class again"))]
     S["F4a const-class on array types"] = [(0x1C, ("type", "[LB;"), "object array"), (0x1C, ("type", "[I"), "primitive array"), (0x1C, ("type", "[LA;"), "array of the class itself"),
                                            (0x1C, ("type", "[[LB;"), "two-dimensional object array"), (0x1C, ("type", "[[I"), "two-dimensional primitive array")]
     S["F5 strings"] = [(0x1A, ("string", "hello"), "const-string"), (0x1B, ("string", "hello"), "jumbo, same string"), (0x1A, ("string", "other"), "other string"),
                        (0x1A, ("string", "hello"), "same string again"), (0x1A, ("string", ""), "the empty string"), (0x1B, ("string", "LA;"), "a string equal to the name of the class")]
+    # code inside an interface (static initialiser / default method): scanned like any other code
+    S["F8 code in an interface"] = [(0x71, ("method", "LB;", "foo", ["(I)", "V"]), "invoke-static"), (0x1A, ("string", "hello"), "const-string"),
+                                    (0x60, ("field", "LA;", "I", "y"), "sget of an own field"), (0x22, ("type", "LB;"), "new-instance"), (0x1C, ("type", EXT), "const-class")]
+    # a const-string whose string id is overridden by a rename hook (the literal equals the former name of LB;->renamed):
+    # DEX.get_cm_string reads the raw table, Instruction.get_string() the hooked one
+    S["F5h const-string with a rename hook on its string id"] = [(0x1A, ("string", "formerName"), "const-string"), (0x1B, ("string", "formerName"), "jumbo"),
+                                                                 (0x1A, ("string", "hello"), "unhooked string")]
     return S
 
 
-FAMILY_PROPS = {"F1": ("C13", "C14", "C15", "C40"), "F2": ("C13", "C40"), "F2a": ("C13",), "F2s": ("C13",), "F3": ("C14", "C40"),
-                "F4": ("C15", "C40"), "F4a": ("C15",), "F5": ("C15", "C40")}
+SCENARIO_OPTS = {"F8": dict(flags_a=0x601), "F5h": dict(hooks=[("formerName", "renamed")])}
+
+FAMILY_PROPS = {"F1": ("C13", "C14", "C15", "C40"), "F2": ("C13", "C40"), "F2a": ("C13", "C40"), "F2s": ("C13", "C40"), "F3": ("C14", "C40"),
+                "F4": ("C15", "C40"), "F4a": ("C15", "C40"), "F5": ("C15", "C40"), "F8": ("C13", "C14", "C15", "C40"), "F5h": ("C15",)}
 
 
 def diff_props(kind, key, tup):
@@ -1325,8 +1573,8 @@ class ScenarioResult:
 
 
 def run_scenario(runner, name, body, layout=None, body_b=()):
-    classes = base_classes(body, body_b)
-    dexes = build(classes, layout or [["LA;", "LB;"]])
+    classes = base_classes(body, body_b, **SCENARIO_OPTS.get(name.split()[0], {}))
+    dexes = build(classes, layout or [["LA;", "LB;", "LD;"]])
     a = runner.analyse(dexes)
     got = snapshot(runner, a)
     if got.raised is None:
@@ -1655,6 +1903,10 @@ def check_property(sink, repo, prop):
         if qn in ana.functions:
             sink.analysed(ana.functions[qn])
     R = results(repo)
+    for rel, qn in sorted(R["runner"].touched):
+        f = repo.mod(rel).functions.get(qn)
+        if f is not None:
+            sink.analysed(f)   # code of the real DEX classes that was executed on the model objects
     n = 0
     for name, res in R["scenarios"].items():
         fam = name.split()[0]
